@@ -170,6 +170,15 @@ def fam_healstates_all(seed, tier):
     rng = random.Random(sseed(seed, "hs", 0))
     idx = list(range(len(cases)))
     rng.shuffle(idx)
+    # ... and an entry of term T means T had a leader, elected by a majority: a state in which fewer
+    # than two of the three nodes have reached T is not reachable either (same artefact)
+    def reachable(c):
+        for n in ("a", "b", "c"):
+            for e in c[n]["ents"]:
+                if e["i"] > 1 and sum(1 for m in ("a", "b", "c") if c[m]["term"] >= e["t"]) < 2:
+                    return False
+        return True
+    idx = [k for k in idx if reachable(cases[k])]
     take = idx[:700] if tier == "quick" else idx
     scs = []
     for k in take:
@@ -194,7 +203,7 @@ def fam_healstates_all(seed, tier):
             sc["no_start"] = [c["down"]]
             sc["heal_keep_down"] = [c["down"]]
         scs.append(sc)
-    return scs, {"heal_state_domain_size": len(cases), "heal_states_run": len(take)}
+    return scs, {"heal_state_domain_size": len(cases), "heal_states_reachable": len(idx), "heal_states_run": len(take)}
 
 
 def fam_hae_all(seed, tier):
